@@ -29,7 +29,8 @@ RULE = ('every public method of the live pyipmi.Ipmi class is called (arguments 
         'quick = the 12 codes any handler tests for + 0x83 + 0xCE + the band edges 01/7E/7F/BE/BF/D6/D7/FE of table 5-2, thorough = 0x01..0xFF), with that request '
         'answered by the bare code (sampled: code + payload); double faults: at every later position of every '
         'run that recovered, plus seeded pairs.  Oracle = the property: CompletionCodeError with that code, '
-        'RetryError, HpmError, or the fault-free result AND evidence of a retry/adaptation in the request trace AND every code the run went on after is one the documented handlers of that operation name. '
+        'RetryError, HpmError, or the fault-free result AND evidence of a retry/adaptation in the request trace AND every code the run went on after is one the documented handlers of that operation name '
+        'AND, for an HPM.1 request answered 80h, the BMC\'s Get Upgrade Status reported the end of the long duration command with 00h (device variants busyhpm / failhpm report 80h for ever / the final code 82h: completing normally there is taking a failure for success). '
         'A case is distinct by (operation, recipe, device variant, fault list) and non-trivial when the fault '
         'position is reached.')
 ASSUMPTIONS = [
@@ -49,6 +50,14 @@ ASSUMPTIONS = [
     'get_and_clear_sel_entry: any finite fault set, the model given more rounds than the last fault position',
     'the BMC is a fixed script (answers depend on the request only); a faulted answer is the bare code '
     '(sampled: code followed by the OK payload)',
+    'SDR reads: the scripted BMC grants ONE reservation id for ever, so a renewal after C5h returns the id the operation '
+    'already holds; whether the id obtained by get_sdr_chunk_helper is handed on to the following chunks / records '
+    '(C13:data_helper:stale-reservation-after-renewal, fixes/C13-2) cannot show here: sdrData / sdrEntries carry one '
+    'reservation id through a record / a listing and produce the requests of either variant (compared field by field, '
+    'reservation included); which id a request carries is C13\'s clause, judged by C13 and mirrored by C11',
+    'HPM.1 long duration commands: the outcome of a command answered 80h is what the script\'s Get Upgrade Status says '
+    '(last completion code 00h / 80h for ever / 82h, one device variant each); a long duration command that ends '
+    'after n polls is C18\'s reference device, not this one; interface time-outs during polling are not injected',
     'wall-clock time in the polling loops is a virtual clock (Python) / a poll budget (Lean)',
     'class-level attributes of returned objects are not compared (only instance state); C07 owns those',
 ]
@@ -392,7 +401,11 @@ def translate(ctx):
         ctx.notes.append(n)
 
 
-def judge(op, faults, free, bad):
+# device variants whose Get Upgrade Status does NOT report that the long duration command ended with 00h
+LONG_NOT_SUCCEEDED = ('failhpm', 'busyhpm')
+
+
+def judge(op, faults, free, bad, variant='default'):
     """The property on one faulted run.  -> (verdict, what)  verdict in
     'cc' 'retry' 'hpm' 'recovered' 'adapted' 'carried'  (fine)  |  'VIOLATION'."""
     codes = [c for (_, c, _) in faults]
@@ -420,6 +433,10 @@ def judge(op, faults, free, bad):
             reached = [c for (kk, c, _) in faults if kk < len(bad['trace'])]
             if any(c not in DOCUMENTED.get(op, ()) for c in reached):
                 return 'VIOLATION', 'undocumented-retry'
+            if variant in LONG_NOT_SUCCEEDED and DOCUMENTED.get(op) is _HPM and 0x80 in reached:
+                # HPM.1: the request was answered 80h and the status polled afterwards says "still in progress" /
+                # "failed with 82h": the BMC never reported success, the operation completed as if it had
+                return 'VIOLATION', 'long-duration-outcome-ignored'
             return 'recovered', None
         return 'VIOLATION', 'ignored-cc'
     if all((op, c) in ADAPT for c in codes) and bad['kind'] == 'ok' and free['kind'] == 'ok':
@@ -454,6 +471,7 @@ class Sweep(object):
         self.tested_codes = {}   # op -> set of codes injected at least once
         self.drv_lines = []      # (line, expected, case)  for the skeleton replay
         self.free = {}           # (op, ri, variant) -> baseline outcome
+        self.long_callers = set()  # operations through which the ignored long-duration outcome was seen
 
     def close(self):
         drop_env(self.env)
@@ -477,7 +495,7 @@ class Sweep(object):
 
     def run_case(self, op, ri, rec, variant, faults, free, kind):
         bad = execute(op, rec, self.env, variant, dict((k, (c, t)) for (k, c, t) in faults))
-        verdict, what = judge(op, faults, free, bad)
+        verdict, what = judge(op, faults, free, bad, variant)
         self.ctx.case((op, ri, variant, tuple(faults)))
         self.ctx.count('verdict:' + (what if verdict == 'VIOLATION' else verdict))
         self.ctx.count('faults:' + kind)
@@ -485,8 +503,16 @@ class Sweep(object):
             self.tested_codes.setdefault(op, set()).add(c)
         if verdict == 'VIOLATION':
             case = {'op': op, 'recipe': ri, 'variant': variant, 'faults': [list(f) for f in faults]}
-            self.note_violation(op, what, case, free, bad)
+            if what == 'long-duration-outcome-ignored':
+                # one defect, in the wait all of them share; reported once, with the callers listed
+                self.long_callers.add(op)
+                self.note_violation(LONG_WAIT_OP, what, case, free, bad)
+            else:
+                self.note_violation(op, what, case, free, bad)
         return bad, verdict
+
+
+LONG_WAIT_OP = 'wait_for_long_duration_command'
 
 
 def describe(o):
@@ -673,21 +699,26 @@ def _variants(ctx, sw, rng):
                                   {'codes': set(), 'witness': case, 'size': (0, -1, -1), 'n': 1,
                                    'obs': describe(short),
                                    'exp': 'a result or a library error for an OK answer without optional data'})
-    for op in ('initiate_upgrade_action_and_wait', 'finish_upload_and_wait', 'activate_firmware_and_wait',
-               'upload_binary', 'wait_for_long_duration_command', 'initiate_manual_rollback_and_wait'):
-        try:
-            rec = recipes(op)[0]
-        except (Uncallable, AttributeError):
-            continue
-        free = execute(op, rec, sw.env, 'busyhpm')
-        if free['kind'] == 'exc' and free['type'] not in LIB_ERRORS:
-            continue
-        for k in range(len(free['trace'])):
-            for c in (sw.codes if ctx.tier == 'thorough' else [0x80, 0xC3, 0xD5, 0xFF]):
-                bad, verdict = sw.run_case(op, 0, rec, 'busyhpm', [(k, c, False)], free, 'single-busyhpm')
-                if verdict == 'recovered':
-                    for k2 in range(k + 1, len(bad['trace'])):
-                        sw.run_case(op, 0, rec, 'busyhpm', [(k, c, False), (k2, 0xC1, False)], free, 'double-directed')
+    for variant in LONG_NOT_SUCCEEDED:
+        for op in ('initiate_upgrade_action_and_wait', 'finish_upload_and_wait', 'activate_firmware_and_wait',
+                   'upload_binary', 'wait_for_long_duration_command', 'initiate_manual_rollback_and_wait',
+                   'upgrade_stage', 'install_component_from_image', 'install_component_from_file'):
+            try:
+                rec = recipes(op)[0]
+            except (Uncallable, AttributeError):
+                continue
+            free = execute(op, rec, sw.env, variant)
+            if free['kind'] == 'exc' and free['type'] not in LIB_ERRORS:
+                continue
+            composite = op in ('upgrade_stage', 'install_component_from_image', 'install_component_from_file')
+            for k in range(len(free['trace'])):
+                codes = [0x80] if composite and ctx.tier == 'quick' else \
+                    sw.codes if ctx.tier == 'thorough' else [0x80, 0xC3, 0xD5, 0xFF]
+                for c in codes:
+                    bad, verdict = sw.run_case(op, 0, rec, variant, [(k, c, False)], free, 'single-' + variant)
+                    if verdict == 'recovered' and not composite:
+                        for k2 in range(k + 1, len(bad['trace'])):
+                            sw.run_case(op, 0, rec, variant, [(k, c, False), (k2, 0xC1, False)], free, 'double-directed')
 
 
 def _polls(timeout, interval, tick=0.26):
@@ -718,7 +749,12 @@ def _handlers(ctx, sw, drv, rng):
     import pyipmi
     has_method = 1 if hasattr(pyipmi.Ipmi, 'send_and_receive') or \
         'send_and_receive' not in inspect.getsource(pyipmi.Ipmi.get_channel_authentication_capabilities) else 0
-    ctx.extra['model_variants'] = {'componentProps.strict': bool(strict), 'channelAuthCaps.hasMethod': bool(has_method)}
+    # does the wait look at what the status polls report?  (request answered 80h, status says "failed with 82h")
+    probe = execute('finish_upload_and_wait', recipes('finish_upload_and_wait')[0], sw.env, 'failhpm',
+                    faults={0: (0x80, False)})
+    wait_strict = 1 if probe['kind'] == 'exc' and probe['type'] == 'HpmError' else 0
+    ctx.extra['model_variants'] = {'componentProps.strict': bool(strict), 'channelAuthCaps.hasMethod': bool(has_method),
+                                   'hpmWait.strict': bool(wait_strict)}
     plan = []   # (label, op, recipe index or callable, variant, driver prefix, value?)
     plan.append(('fru-full', 'read_fru_data', 0, 'default', 'fru %s - -' % hexs))
     plan.append(('fru-range', 'read_fru_data', 1, 'default', 'fru %s 3 70' % hexs))
@@ -730,12 +766,12 @@ def _handlers(ctx, sw, drv, rng):
     plan.append(('clear-sdr', 'clear_sdr_repository', 0, 'default', 'clear 4'))
     for op, (to, iv) in (('initiate_upgrade_action_and_wait', (1, 0.1)), ('finish_upload_and_wait', (1, 0.1)),
                          ('activate_firmware_and_wait', (1, 0.1))):
-        for variant in ('default', 'busyhpm'):
+        for mode, variant in enumerate(('default', 'busyhpm', 'failhpm')):
             plan.append(('andwait-' + variant, op, 0, variant,
-                         'andwait %d %d' % (variant == 'busyhpm', _polls(to, iv))))
-    for variant in ('default', 'busyhpm'):
+                         'andwait %d %d %d' % (wait_strict, mode, _polls(to, iv))))
+    for mode, variant in enumerate(('default', 'busyhpm', 'failhpm')):
         plan.append(('upload-' + variant, 'upload_binary', 0, variant,
-                     'upload 3 %d %d' % (variant == 'busyhpm', _polls(1, 0.1))))
+                     'upload %d 3 %d %d' % (wait_strict, mode, _polls(1, 0.1))))
     plan.append(('chunk', '_get_sdr_chunk',
                  lambda ipmi: ipmi._get_sdr_chunk(0x1b0b, 1, 0, 5), 'default', 'chunk 4'))
     plan.append(('props', 'get_component_properties', 0, 'default', 'props %d' % strict))
@@ -784,8 +820,10 @@ COVER_THEOREMS = {
     'transport': 'no IPMI message is exchanged through send_message: no request position exists to answer with a '
                  'completion code (the skeleton issues nothing; skeleton_fault_safe applies vacuously)',
     'leaf:0': 'read_fru_fault_safe, read_fru_multi_safe, op_read_fru_data_*',
-    'leaf:1': 'hpm_and_wait_fault_safe, hpm_and_wait_multi_safe',
-    'leaf:2': 'upload_binary_fault_safe, upload_binary_multi_safe',
+    'leaf:1': 'hpm_and_wait_fault_safe, hpm_and_wait_multi_safe, hpm_long_outcome_never_mistaken, '
+              'hpm_long_failure_is_hpm_error (intended wait; hpm_and_wait_as_shipped_counterexample for the pinned one)',
+    'leaf:2': 'upload_binary_fault_safe, upload_binary_multi_safe, upload_binary_long_outcome_never_mistaken, '
+              'upload_binary_long_failure_is_hpm_error (upload_binary_as_shipped_counterexample)',
     'leaf:3': 'component_props_intended_fault_safe, component_props_intended_multi_safe',
     'leaf:4': 'get_and_clear_multi_safe, get_and_clear_fault_safe, script_get_and_clear_multi_safe',
     'leaf:5': 'sel_entry_exact, sel_entry_multi_safe, sel_entry_fault_safe, script_get_sel_entry_multi_safe',
@@ -991,6 +1029,9 @@ def _report(ctx, sw, baseline_broken):
         ctx.violate('C08:%s:%s' % (op, label),
                     '%s: %s (%d case%s)' % (op, _explain(what), slot['n'], '' if slot['n'] == 1 else 's'),
                     case, expected=slot['exp'], observed=slot['obs'])
+    if sw.long_callers:
+        explained.setdefault(LONG_WAIT_OP, [])
+        explained[LONG_WAIT_OP] = sorted(set(explained[LONG_WAIT_OP]) | sw.long_callers)
     ctx.extra['same_defect_seen_through_callers'] = explained
 
 
@@ -1003,6 +1044,10 @@ def _explain(what):
     if what == 'undocumented-retry':
         return 'a non-OK completion code that no documented retry / adaptation of this operation names is swallowed: ' \
                'the operation goes on and completes as if nothing had been reported'
+    if what == 'long-duration-outcome-ignored':
+        return 'an HPM.1 request is answered 80h "command in progress" and Get Upgrade Status then reports that the ' \
+               'command FAILED (last completion code 82h) or is still in progress when the time-out expires: the ' \
+               'operation completes normally all the same - a failure reported by the BMC is taken for success'
     if what == 'result-differs':
         return 'a non-OK completion code changes the returned value instead of raising'
     if what == 'wrong-code':
@@ -1064,12 +1109,17 @@ def replay(ctx, v):
             print('  property demands           : a result or a library error')
             return still
         bad = execute(op, rec, env, variant, dict((k, (c, t)) for (k, c, t) in faults))
-        verdict, what = judge(op, faults, free, bad)
+        verdict, what = judge(op, faults, free, bad, variant)
+        if variant in LONG_NOT_SUCCEEDED:
+            print('  Get Upgrade Status reports : last completion code %s' % (
+                '80h (in progress) for as long as it is polled' if variant == 'busyhpm' else '82h (the command failed)'))
         for (k, c, t) in faults:
             print('  request #%d answered with completion code 0x%02x%s' % (k, c, ' + payload' if t else ''))
         print('  observed                  : %s   [%d requests]' % (describe(bad), len(bad['trace'])))
         print('  property demands          : CompletionCodeError carrying the code, RetryError, HpmError, '
-              'or the fault-free result after a retry/adaptation')
+              'or the fault-free result after a retry/adaptation%s' % (
+                  ' (after 80h: only if Get Upgrade Status reports the end of the command with 00h)'
+                  if variant in LONG_NOT_SUCCEEDED else ''))
         print('  verdict                   : %s%s' % (verdict, '' if what is None else ' (' + what + ')'))
         return verdict == 'VIOLATION'
     finally:
